@@ -282,3 +282,40 @@ Definition normal (cfs sfs : list frame) : bool :=
   && methods_ok (fun c m => negb (spec_reply c m) && negb ((c =? 60) && (m =? 60))) cfs
   && methods_ok (fun c m => negb (spec_request c m) && negb ((c =? 60) && (m =? 40))) sfs
   && distinct (keys spec_request cfs) && distinct (keys spec_reply sfs).
+
+(* ------------------------------------------------------------------ the same report, server half read first *)
+(* The property is about the conversation; the ORDER of the items depends on which half the
+   tap happens to read first.  When the server half is read first, deliveries (the server's
+   content messages) are reported while it is read; a reply has nothing to be paired with yet
+   and waits; then, in the order of the client direction: every request whose reply waits is
+   reported with it (request = the client's method, response = the server's, as before), and
+   every publish is reported with an empty response.  Written from the property as well;
+   `find_request` is used to find the server's method (ch, cls, meth + 1) among its frames. *)
+Fixpoint spec_client (cfs sfs : list frame) (cur : option (N * N * list arg)) (props : option (list arg)) : list sitem :=
+  match cfs with
+  | [] => []
+  | FrMethod ch cls meth args :: rest =>
+      let next := spec_client rest sfs (if spec_content cls meth then Some (ch, meth, spec_reported cls meth args) else None) None in
+      if spec_request cls meth then
+        match find_request ch cls (meth + 1) sfs with
+        | Some rp => ((cls * 1000 + meth, spec_reported cls meth args), (cls * 1000 + (meth + 1), spec_reported cls (meth + 1) rp)) :: next
+        | None => next
+        end
+      else next
+  | FrHeader ch _ _ _ _ slots :: rest =>
+      match cur with
+      | Some (ch', _, _) => if ch =? ch' then spec_client rest sfs cur (Some (spec_props slots spec_zero_props)) else spec_client rest sfs cur props
+      | None => spec_client rest sfs cur props
+      end
+  | FrBody ch body :: rest =>
+      match cur, props with
+      | Some (ch', meth, a), Some p =>
+          if (ch =? ch') && (meth =? 40) then ((60040, a ++ p ++ [ALongStr body]), (0, [])) :: spec_client rest sfs None None
+          else spec_client rest sfs None None
+      | _, _ => spec_client rest sfs cur props
+      end
+  | _ :: rest => spec_client rest sfs cur props
+  end.
+
+Definition spec_report_server_first (cfs sfs : list frame) : list sitem :=
+  spec_messages 60 sfs None None ++ spec_client cfs sfs None None.
